@@ -12,6 +12,20 @@ def sh(cmd, cwd=None, timeout=7200):
     return p.returncode, p.stdout.decode("utf-8", "replace")
 
 
+
+
+def repo_lock():
+    """/repo is patched in place: one user at a time (mkdir is atomic)"""
+    import atexit
+    while True:
+        try:
+            os.mkdir("/tmp/repo.lock")
+            break
+        except FileExistsError:
+            time.sleep(5)
+    atexit.register(lambda: os.path.isdir("/tmp/repo.lock") and os.rmdir("/tmp/repo.lock"))
+
+repo_lock()
 ids = sys.argv[1:] or sorted(os.path.basename(os.path.dirname(f)) for f in glob.glob(f"{V}/seeded/*/meta.json"))
 st = sh("git -C /repo status --porcelain")[1].strip()
 assert st == "", "/repo not clean: " + st
